@@ -28,26 +28,27 @@ type RawClause struct {
 }
 
 type RawContract struct {
-	Pkg       string // package dir ("." etc)
-	File      string
-	Line      int
-	Header    string // "func (d *decoder) fill() (err error)"
-	Recv      string // receiver type text, "" for functions
-	Name      string
-	Params    string // "d *decoder, p []byte" (receiver first)
-	Results   string // "err error" (named)
-	Locals    string // "j int, dsize int"
-	Clauses   []*RawClause
-	Props     []string
-	Trusted   bool     // body not verified; contract assumed at call sites
-	Nullable  []string // pointer params that may be nil
-	Inline    bool
-	Pure      bool // ensures result == f(args): function has no effects (checked via empty assigns)
-	Split     string
-	GenName   string // name of generated clause function
-	Reveal    []string
-	NoSubtype bool
-	Slow      map[string]int
+	Pkg           string // package dir ("." etc)
+	File          string
+	Line          int
+	Header        string // "func (d *decoder) fill() (err error)"
+	Recv          string // receiver type text, "" for functions
+	Name          string
+	Params        string // "d *decoder, p []byte" (receiver first)
+	Results       string // "err error" (named)
+	Locals        string // "j int, dsize int"
+	Clauses       []*RawClause
+	Props         []string
+	Trusted       bool     // body not verified; contract assumed at call sites
+	Nullable      []string // pointer params that may be nil
+	Inline        bool
+	Pure          bool // ensures result == f(args): function has no effects (checked via empty assigns)
+	Split         string
+	GenName       string // name of generated clause function
+	Reveal        []string
+	NoSubtype     bool
+	Slow          map[string]int
+	InnerPatterns bool
 }
 
 type RawSpec struct {
@@ -94,6 +95,7 @@ type RawLemma struct {
 	Reveal    []string
 	TimeoutS  int
 	Induction []string // "induction base step": proved by the induction principle from two other lemmas
+	Cases     string   // "cases profile": one sub-goal per known message number for the first (MesgNum) parameter
 }
 
 var reFuncHdr = regexp.MustCompile(`^func\s*(\(([^)]*)\))?\s*([A-Za-z_][A-Za-z0-9_]*)\s*\(([^)]*)\)\s*(.*)$`)
@@ -224,6 +226,8 @@ func parseContractFile(path string) (*ContractFile, error) {
 					fmt.Sscanf(rest, "%d", &curLemma.TimeoutS)
 				case "induction":
 					curLemma.Induction = strings.Fields(rest)
+				case "cases":
+					curLemma.Cases = strings.TrimSpace(rest)
 				default:
 					return fmt.Errorf("%s:%d: unknown lemma clause %q", path, ln, word)
 				}
@@ -253,6 +257,9 @@ func parseContractFile(path string) (*ContractFile, error) {
 				cur.Trusted = true
 			case "inline":
 				cur.Inline = true
+			case "patterns":
+				// "patterns inner": range quantifiers of this contract trigger on the slice element
+				cur.InnerPatterns = strings.TrimSpace(rest) == "inner"
 			case "nullable":
 				cur.Nullable = append(cur.Nullable, strings.Fields(strings.ReplaceAll(rest, ",", " "))...)
 			case "locals":
@@ -581,6 +588,7 @@ func govcRVWidth(m, i int) int                            { return 0 }
 func govcRVEClass(m, i int) int                           { return 0 }
 func govcRVEWidth(m, i int) int                           { return 0 }
 func govcRVTypeTag(m, i int) int                          { return 0 }
+func govcRVRow(m, i int) int                              { return 0 }
 func govcTypeTag[T any]() int                             { return 0 }
 func govcIsLE(x interface{}) bool                         { return false }
 func govcIsBE(x interface{}) bool                         { return false }
@@ -594,6 +602,7 @@ func govcOffset[T any](a []T) int                         { return 0 }
 func govcGassign[T any](id int, target, value T, cond bool) int { return 0 }
 func govcF32bits(u uint32) float32                        { return 0 }
 func govcBinsize(x interface{}) int                       { return 0 }
+func govcRtypemsg(t interface{}) int                      { return 0 }
 func govcTagsize(tag int) int                             { return 0 }
 func govcF64bits(u uint64) float64                        { return 0 }
 
@@ -616,7 +625,7 @@ func genOverlay(cf *ContractFile) (string, error) {
 			body.WriteString("func govcIfaceOf(v reflect.Value) interface{} { return v.Interface() }\n")
 			body.WriteString("func govcRvmt(v reflect.Value) int { return 0 }\nfunc govcRvfld(v reflect.Value) int { return 0 }\nfunc govcRvobj(v reflect.Value) int { return 0 }\nfunc govcRvcls(v reflect.Value) int { return 0 }\nfunc govcRvttag(v reflect.Value) int { return 0 }\nfunc govcRvstate(v reflect.Value) int { return 0 }\nfunc govcRvwid(v reflect.Value) int { return 0 }\nfunc govcRvecls(v reflect.Value) int { return 0 }\nfunc govcRvewid(v reflect.Value) int { return 0 }\nfunc govcRvvalid(v reflect.Value) bool { return v.IsValid() }\nfunc govcRvismsg(v reflect.Value, m int) bool { return true }\n")
 			body.WriteString("func govcMsgOf[T any](v reflect.Value) T { return v.Interface().(T) }\n")
-			body.WriteString("func govcRvint(v reflect.Value) int { return 0 }\nfunc govcRvflt(v reflect.Value) float64 { return 0 }\nfunc govcRvfieldof(v reflect.Value, i int) reflect.Value { return v }\nfunc govcRvcell(v reflect.Value) int { return 0 }\nfunc govcRvindirect(v reflect.Value) reflect.Value { return reflect.Indirect(v) }\nfunc govcRvmsgarg(v reflect.Value) bool { return true }\nfunc govcRvstr(v reflect.Value) string { return \"\" }\n")
+			body.WriteString("func govcRvlen(v reflect.Value) int { return 0 }\nfunc govcRvint(v reflect.Value) int { return 0 }\nfunc govcRvflt(v reflect.Value) float64 { return 0 }\nfunc govcRvfieldof(v reflect.Value, i int) reflect.Value { return v }\nfunc govcRvcell(v reflect.Value) int { return 0 }\nfunc govcRvindirect(v reflect.Value) reflect.Value { return reflect.Indirect(v) }\nfunc govcRvmsgarg(v reflect.Value) bool { return true }\nfunc govcRvstr(v reflect.Value) string { return \"\" }\n")
 		}
 	}
 	{
@@ -789,7 +798,7 @@ func genOverlay(cf *ContractFile) (string, error) {
 	return b.String(), nil
 }
 
-var reBuiltin = regexp.MustCompile(`\b(old|ite|fresh|same|isNaN|ifaceOf|samebase|offset|isEOF|isUEOF|iserr|isLE|isBE|ifaceobj|allfields|rvmt|rvfld|rvobj|rvcls|rvttag|rvstate|rvwid|rvecls|rvewid|rvvalid|rvismsg|binsize|tagsize|rvindirect|rvmsgarg|rvstr|f32bits|f64bits|rvtimeat|rvcell|rvtime|rvint|rvflt|rvfieldof|tsec|tns|tzoff|tzid|rvNumField|rvClass|rvWidth|rvEClass|rvEWidth|rvTypeTag)\(`)
+var reBuiltin = regexp.MustCompile(`\b(old|ite|fresh|same|isNaN|ifaceOf|samebase|offset|isEOF|isUEOF|iserr|isLE|isBE|ifaceobj|allfields|rvmt|rvfld|rvobj|rvcls|rvttag|rvstate|rvwid|rvecls|rvewid|rvvalid|rvismsg|rvlen|binsize|tagsize|rtypemsg|rvindirect|rvmsgarg|rvstr|f32bits|f64bits|rvtimeat|rvcell|rvtime|rvint|rvflt|rvfieldof|tsec|tns|tzoff|tzid|rvNumField|rvClass|rvWidth|rvEClass|rvEWidth|rvTypeTag|rvRow)\(`)
 var reTypeIs = regexp.MustCompile(`\btypeis\[`)
 var reMsgOf = regexp.MustCompile(`\bmsgOf\[`)
 var reTypeTag = regexp.MustCompile(`\btypetag\[`)
@@ -864,6 +873,8 @@ func rewriteBuiltins(s string) string {
 			return "govcRVEWidth("
 		case "rvTypeTag(":
 			return "govcRVTypeTag("
+		case "rvRow(":
+			return "govcRVRow("
 		case "samebase(":
 			return "govcSameBase("
 		case "rvtime(":
@@ -874,6 +885,10 @@ func rewriteBuiltins(s string) string {
 			return "govcRvstr("
 		case "rvindirect(":
 			return "govcRvindirect("
+		case "rvlen(":
+			return "govcRvlen("
+		case "rtypemsg(":
+			return "govcRtypemsg("
 		case "binsize(":
 			return "govcBinsize("
 		case "tagsize(":
